@@ -29,7 +29,7 @@ PROFILES = {
     "C09": dict(world={"seg": True, "feats": "iou"}, w={"paint": 7, "add_edge": 5, "enable": 0.6, "disable": 0.4}, steps=(8, 40), iou_toggle=True, motif=0.4, motifs=["toggle", "toggle", "fold"]),
     "C10": dict(world={}, w={"enable": 4, "disable": 3, "update_attrs": 3, "query": 0.3}, steps=(10, 50), toggle_ids=True, motif=0.4, motifs=["toggle", "toggle", "fold"]),
     "C11": dict(world={}, w={"add_edge": 6, "add_node": 5, "paint": 5, "swap": 2, "update_attrs": 2, "enable": 0.05, "disable": 0.02}, steps=(10, 60), f1=(0.4,), trap=True, werror=True),
-    "C14": dict(world={"p_big": 0.03}, w={"reimport": 2.5, "restart": 0.8, "save": 0.8, "enable": 0.15, "disable": 0.15}, steps=(4, 25), io=True, explicit_tracks=True),
+    "C14": dict(world={"p_big": 0.03}, w={"reimport": 2.5, "restart": 0.8, "save": 0.8, "export": 0.8, "enable": 0.15, "disable": 0.15}, steps=(4, 25), io=True, explicit_tracks=True),
     "C15": dict(world={"p_big": 0.08}, w={"export": 3, "enable": 0.1, "disable": 0.0}, steps=(4, 25), io=True, subset=1.0, explicit_tracks=True),
     "C16": dict(world={"p_big": 0.03}, w={"query": 3, "export": 2, "save": 1, "enable": 0.1, "disable": 0.0}, steps=(4, 30), io=True),
     "C20": dict(world={}, w={"primitive": 1, "query": 0.5, "enable": 0.2, "disable": 0.1}, steps=(10, 60), f1=(0.1, 0.4), subs=True, werror=True),
@@ -215,7 +215,7 @@ def gen_op(rng: random.Random, cfg: dict, kind: str | None = None) -> dict:
     elif kind in ("save", "export", "reimport", "restart"):
         fmts = ["internal", "csv", "geff2", "geff3"]
         if kind == "export":
-            fmts = ["csv", "csv_tif", "csv_names", "csv_names_tif", "geff2", "geff3"]
+            fmts = ["csv", "csv_tif", "csv_names", "csv_names_tif", "csv_colors", "geff2", "geff3"]
         if kind == "save":
             fmts = ["internal"]
         if kind == "restart":
@@ -223,6 +223,11 @@ def gen_op(rng: random.Random, cfg: dict, kind: str | None = None) -> dict:
         if kind == "reimport" and cfg.get("tier") == "thorough":
             fmts = fmts + ["csv_names"]
         op.update(fmt=rng.choice(fmts))
+        if kind == "export":
+            # export again to where the previous export of this format went
+            op["into_prev"] = rng.choice([None, None, "replace", "refuse"])
+            if op["into_prev"] == "refuse":
+                op["fmt"] = rng.choice(["geff2", "geff3"])  # only GEFF refuses an existing target
         if kind == "save":
             # Ctrl+S: save again into the directory of this session's last save
             op["reuse_dir"] = rng.random() < 0.5
